@@ -15,6 +15,7 @@
 import CorgiProofs.PathSum
 import CorgiProofs.EngineFrame
 import CorgiProofs.Reachable
+import CorgiProofs.LinearHeap
 
 set_option linter.unusedSectionVars false
 
@@ -105,6 +106,34 @@ theorem C01_leaf_needs_no_keep [AddLaws S] {G : Graph S} (sem : Sem G) (ℓ : Na
     ∀ n s, s ∈ G.kids n → s.tracked = true → s.node = ℓ → ((G.kids ℓ).isEmpty || s.keep) = stores sem ℓ := by
   intro n s _ _ _; simp [stores, hleaf]
 
+/-- **The path-sum theorem with nothing assumed about the operations.**  In any good state (so: after any
+    history of commands) whose recorded nodes store operands of the shapes their forward operations left
+    them with (`ShapeOK`: every node's tag is one of the closures proved linear in `LinearTags`), a pass
+    from any valid handle `h` with a seed of `h`'s shape leaves on a leaf `ℓ`, coordinate by coordinate,
+    its previous gradient plus the sum over all tracked paths from `h` to `ℓ` of the composed
+    contributions — where the contribution `Λ n i` along an edge is *the stored closure's own `i`-th
+    answer*, reduced by `flatten_to` (`State.sem_Λ`), not an assumed law. -/
+theorem C01_pathsum_of_stored_closures [AddLaws S] [MulLaws S] {σ : State S} (g : Good σ) (hs : ShapeOK σ)
+    (ℓ j : Nat) (hleaf : σ.graph.kids ℓ = []) (h : Handle) (hv : h.Valid σ) (seed : Option (Tensor S))
+    (hgr : ∀ t, σ.estate.grad ℓ = some t → Shaped (σ.dimsOf ℓ) t)
+    (x : Tensor S) (hseed : seedOrOnes seed h.dims = .ok x) (hxs : Shaped (σ.dimsOf h.node) x)
+    (e : EState S) (hok : Corgi.backward σ.graph (σ.nodes.size + 1) h.node h.dims h.keep seed σ.estate = .ok e) :
+    gradVal ℓ j e = gradVal ℓ j σ.estate + P (σ.sem (fun _ => h.keep) g.heap hs) ℓ j h.node x :=
+  (backward_pathsum (σ.sem (fun _ => h.keep) g.heap hs) ℓ j (graph_wf σ g.heap)
+    (fun n s _ _ _ => by simp [stores, hleaf]) (graph_lawful σ g.heap) (σ.nodes.size + 1) h.node
+    (by have := hv.1; omega) h.dims seed σ.estate e (estate_clean σ g.heap) rfl hgr x hseed hxs hok).1
+
+/-- … and the gradient it leaves has the leaf's shape -/
+theorem C01_grad_shape_of_stored_closures [AddLaws S] [MulLaws S] {σ : State S} (g : Good σ) (hs : ShapeOK σ)
+    (ℓ : Nat) (hleaf : σ.graph.kids ℓ = []) (h : Handle) (hv : h.Valid σ) (seed : Option (Tensor S))
+    (hgr : ∀ t, σ.estate.grad ℓ = some t → Shaped (σ.dimsOf ℓ) t)
+    (x : Tensor S) (hseed : seedOrOnes seed h.dims = .ok x) (hxs : Shaped (σ.dimsOf h.node) x)
+    (e : EState S) (hok : Corgi.backward σ.graph (σ.nodes.size + 1) h.node h.dims h.keep seed σ.estate = .ok e) :
+    ∀ t, e.grad ℓ = some t → Shaped (σ.dimsOf ℓ) t :=
+  (backward_pathsum (σ.sem (fun _ => h.keep) g.heap hs) ℓ 0 (graph_wf σ g.heap)
+    (fun n s _ _ _ => by simp [stores, hleaf]) (graph_lawful σ g.heap) (σ.nodes.size + 1) h.node
+    (by have := hv.1; omega) h.dims seed σ.estate e (estate_clean σ g.heap) rfl hgr x hseed hxs hok).2
+
 end Corgi
 
 #print axioms Corgi.C01_every_path_once
@@ -115,3 +144,5 @@ end Corgi
 #print axioms Corgi.C01_every_path_once_reachable
 #print axioms Corgi.C01_backward_pathsum_reachable
 #print axioms Corgi.C01_leaf_needs_no_keep
+#print axioms Corgi.C01_pathsum_of_stored_closures
+#print axioms Corgi.C01_grad_shape_of_stored_closures
